@@ -48,11 +48,22 @@ def copy_subjects(prog, eff):
                                   if n in prog.funcs and prog.funcs[n].internal and prog.funcs[n].unit == prog.fn("cbor_copy").unit)
 
 
-def check_total(chk, rule, prog, eff, cache, CS, floor=10):
+def makers(prog, eff):
+    """exported routines that build and return a new item (they allocate): constructors, builders, the copy routine"""
+    return sorted(f.name for f in prog.lib_funcs() if not f.internal and f.ret_type == "%struct.cbor_item_t*" and
+                  eff.summ[f.name]["allocates"] and f.name not in ("cbor_load",))
+
+
+def check_total(chk, rule, prog, eff, cache, CS, floor=10, with_makers=True):
     in_context = set()
     for g_ in prog.lib_funcs():
         in_context |= O.static_callees(prog, eff, g_.name)
     SUBJECTS = [n for n in copy_subjects(prog, eff) if n not in in_context]    # helpers are judged where they are inlined
+    if with_makers:
+        # the refusal of a builder the copy delegates to counts as "a callee failed" only because the builder is held to
+        # the same rule: it returns NULL only where the allocator (or another maker, or an insertion) refused
+        SUBJECTS += [n for n in makers(prog, eff) if n not in SUBJECTS]
+    fallible = set(SUBJECTS) | set(O.TAKES_REF) | {"_cbor_alloc_multiple", "_cbor_realloc_multiple", "_cbor_stack_push"}
     SRC = ("arg", 0)
     ntot = 0
     for name in SUBJECTS:
@@ -71,7 +82,8 @@ def check_total(chk, rule, prog, eff, cache, CS, floor=10):
             if isinstance(r, tuple) and r[0] == "call":
                 continue   # the callee's own refusal handed on unchanged
             ntot += 1
-            failed = [e for e in pa.events if e.kind == "call" and e.ckind in ("lib", "alloc") and e.res is not None and e.res != ("void",) and
+            failed = [e for e in pa.events if e.kind == "call" and (e.ckind == "alloc" or (e.ckind == "lib" and e.callee in fallible)) and
+                      e.res is not None and e.res != ("void",) and
                       (pa.st.known_null(e.res) or pa.st.truth.get(e.res) is False or pa.st.eqc.get(e.res) == 0)]
             outside = has_item and not CS.summary(f, pa, SRC)[0]
             ok = bool(failed) or outside
@@ -79,7 +91,7 @@ def check_total(chk, rule, prog, eff, cache, CS, floor=10):
                    detail=("%s failed" % failed[0].callee) if failed else ("type outside the enumeration" if outside else
                            "returns NULL / false although no allocation or insertion failed on this path: a well-formed tree is refused"),
                    path=pa.block_lines() if not ok else None)
-    chk.floor(rule, "refusal paths of the copy routine", ntot, floor)
+    chk.floor(rule, "refusal paths of the copy routine and of the makers", ntot, floor)
 
 
 def run(ctx, chk):
